@@ -1,16 +1,644 @@
 package main
 
+// Check driver: property -> harnesses -> symbolic exploration -> native replay of
+// counterexamples and witnesses -> classification -> evidence.
+
 import (
+	"bufio"
+	"encoding/json"
+	"fmt"
+	"os"
+	"os/exec"
 	"path/filepath"
+	"sort"
+	"strconv"
+	"strings"
+	"time"
 )
 
+type HarnessSpec struct {
+	Pkg      string   `json:"pkg"`  // import path relative to the module ("pkg/execution/util/cronschedule")
+	Func     string   `json:"func"` // harness function
+	Tiers    []string `json:"tiers,omitempty"`
+	Covers   []string `json:"covers,omitempty"` // cover marks that must be reachable (vacuity guard)
+	Bounds   string   `json:"bounds,omitempty"`
+	Lemma    string   `json:"lemma,omitempty"`
+	MaxPaths int      `json:"max_paths,omitempty"`
+	Loop     int      `json:"loop,omitempty"`
+}
+
+type PropertySpec struct {
+	Harnesses   []HarnessSpec `json:"harnesses"`
+	Assumptions []string      `json:"assumptions"`
+	Outside     []string      `json:"outside"`
+	HostTables  []string      `json:"host_tables,omitempty"`
+}
+
+type ChecksFile struct {
+	Rewrites   []Rewrite               `json:"rewrites"`
+	Properties map[string]PropertySpec `json:"properties"`
+}
+
+func loadChecks() (*ChecksFile, error) {
+	b, err := os.ReadFile(filepath.Join(verifDir(), "checks.json"))
+	if err != nil {
+		return nil, err
+	}
+	cf := &ChecksFile{}
+	return cf, json.Unmarshal(b, cf)
+}
+
+var workDir string
+
+func ensureWorkDir() string {
+	if workDir == "" {
+		workDir = filepath.Join(verifDir(), ".work", fmt.Sprintf("run-%d", os.Getpid()))
+		os.MkdirAll(workDir, 0o755)
+	}
+	return workDir
+}
+
+func cleanupWork() {
+	if workDir != "" {
+		os.RemoveAll(workDir)
+	}
+}
+
+// prepareOverlay: harness files + generated rewrites. Returns the in-memory
+// overlay (for go/packages) and the virtual->real file map (for go test -overlay).
 func prepareOverlay() (map[string][]byte, map[string]string, error) {
 	ov, files, err := buildOverlay(filepath.Join(verifDir(), "harness"))
 	if err != nil {
 		return nil, nil, err
 	}
+	cf, err := loadChecks()
+	if err != nil {
+		return nil, nil, err
+	}
+	wd := ensureWorkDir()
+	for i, rw := range cf.Rewrites {
+		b, err := applyRewrite(rw)
+		if err != nil {
+			return nil, nil, fmt.Errorf("rewrite %s: %v", rw.File, err)
+		}
+		real := filepath.Join(wd, fmt.Sprintf("rw%d_%s", i, filepath.Base(rw.File)))
+		if err := os.WriteFile(real, b, 0o644); err != nil {
+			return nil, nil, err
+		}
+		virt := filepath.Join(repoDir, rw.File)
+		ov[virt] = b
+		files[virt] = real
+	}
 	return ov, files, nil
 }
 
-func cmdCheck(args []string) int  { return 2 }
-func cmdReplay(args []string) int { return 2 }
+func writeOverlayJSON(files map[string]string) (string, error) {
+	path := filepath.Join(ensureWorkDir(), "overlay.json")
+	return path, writeJSON(path, map[string]interface{}{"Replace": files})
+}
+
+type knownFinding struct {
+	kind    string // finding | fixed
+	prop    string
+	id      string
+	asserts map[string]bool
+	text    string
+}
+
+func loadKnownFindings() []knownFinding {
+	var out []knownFinding
+	f, err := os.Open(filepath.Join(verifDir(), "known-findings.txt"))
+	if err != nil {
+		return nil
+	}
+	defer f.Close()
+	sc := bufio.NewScanner(f)
+	for sc.Scan() {
+		l := strings.TrimSpace(sc.Text())
+		if l == "" || strings.HasPrefix(l, "#") {
+			continue
+		}
+		kf := knownFinding{asserts: map[string]bool{}, text: l}
+		switch {
+		case strings.HasPrefix(l, "finding:"):
+			kf.kind = "finding"
+		case strings.HasPrefix(l, "fixed:"):
+			kf.kind = "fixed"
+		default:
+			continue
+		}
+		for _, tok := range strings.Fields(l) {
+			switch {
+			case strings.HasPrefix(tok, "property="):
+				kf.prop = strings.TrimPrefix(tok, "property=")
+			case strings.HasPrefix(tok, "id="):
+				kf.id = strings.TrimPrefix(tok, "id=")
+			case strings.HasPrefix(tok, "asserts="):
+				for _, a := range strings.Split(strings.TrimPrefix(tok, "asserts="), ",") {
+					kf.asserts[a] = true
+				}
+			}
+		}
+		out = append(out, kf)
+	}
+	return out
+}
+
+type replayFile struct {
+	Harness  string            `json:"harness"`
+	AssertID string            `json:"assert_id"`
+	Kind     string            `json:"kind"`
+	Inputs   []ReplayInput     `json:"inputs"`
+	Observes map[string]string `json:"observes"`
+	Findings []string          `json:"findings"`
+	Detail   string            `json:"detail,omitempty"`
+	Property string            `json:"property"`
+	Pkg      string            `json:"pkg"`
+}
+
+type nativeResult struct {
+	ran      bool
+	failed   []string
+	panicked string
+	diverged string
+	observes map[string]string
+}
+
+// runNative replays all files in dir against package pkg (module-relative).
+func runNative(pkgRel string, dir string, overlayJSON string, tier string) (map[string]*nativeResult, string, error) {
+	cmd := exec.Command("go", "test", "-tags", "verif", "-overlay", overlayJSON, "-vet=off", "-count=1",
+		"-run", "^TestVerifReplay$", "-v", "-timeout", "20m", "./"+pkgRel)
+	cmd.Dir = repoDir
+	cmd.Env = append(os.Environ(), "GOFLAGS=-mod=mod", "GOPROXY=off", "GOSUMDB=off", "GOTOOLCHAIN=local",
+		"VERIF_REPLAY_DIR="+dir, "VERIF_TIER="+tier)
+	out, err := cmd.CombinedOutput()
+	res := map[string]*nativeResult{}
+	var cur *nativeResult
+	for _, l := range strings.Split(string(out), "\n") {
+		l = strings.TrimSpace(l)
+		switch {
+		case strings.HasPrefix(l, "VERIF-REPLAY-BEGIN "):
+			f := fieldOf(l, "file=")
+			cur = &nativeResult{ran: true, observes: map[string]string{}}
+			res[f] = cur
+		case strings.HasPrefix(l, "VERIF-REPLAY-END"):
+			cur = nil
+		case cur != nil && strings.HasPrefix(l, "VERIF-ASSERT-FAIL "):
+			cur.failed = append(cur.failed, strings.TrimPrefix(l, "VERIF-ASSERT-FAIL "))
+		case cur != nil && strings.HasPrefix(l, "VERIF-PANIC "):
+			cur.panicked = strings.TrimPrefix(l, "VERIF-PANIC ")
+		case cur != nil && strings.HasPrefix(l, "VERIF-DIVERGED "):
+			cur.diverged = strings.TrimPrefix(l, "VERIF-DIVERGED ")
+		case cur != nil && strings.HasPrefix(l, "VERIF-OBSERVE "):
+			kv := strings.TrimPrefix(l, "VERIF-OBSERVE ")
+			if i := strings.Index(kv, "="); i > 0 {
+				cur.observes[kv[:i]] = kv[i+1:]
+			}
+		}
+	}
+	if err != nil && len(res) == 0 {
+		return res, string(out), fmt.Errorf("go test failed: %v", err)
+	}
+	return res, string(out), nil
+}
+
+func fieldOf(l, key string) string {
+	i := strings.Index(l, key)
+	if i < 0 {
+		return ""
+	}
+	r := l[i+len(key):]
+	if j := strings.IndexByte(r, ' '); j >= 0 {
+		r = r[:j]
+	}
+	return r
+}
+
+func hasTier(h HarnessSpec, tier string) bool {
+	if len(h.Tiers) == 0 {
+		return true
+	}
+	for _, t := range h.Tiers {
+		if t == tier {
+			return true
+		}
+	}
+	return false
+}
+
+func cmdCheck(args []string) int {
+	if len(args) < 1 {
+		usage()
+	}
+	prop := args[0]
+	tier := "quick"
+	if len(args) > 1 {
+		tier = args[1]
+	}
+	if t := os.Getenv("VERIF_TIER"); t != "" && len(args) < 2 {
+		tier = t
+	}
+	seed, _ := strconv.ParseInt(os.Getenv("VERIF_SEED"), 10, 64)
+	t0 := time.Now()
+	defer cleanupWork()
+	cf, err := loadChecks()
+	if err != nil {
+		fmt.Println("BROKEN: cannot load checks.json:", err)
+		return 2
+	}
+	spec, ok := cf.Properties[prop]
+	if !ok {
+		fmt.Println("BROKEN: unknown property", prop)
+		return 2
+	}
+	ov, files, err := prepareOverlay()
+	if err != nil {
+		fmt.Println("BROKEN: overlay:", err)
+		return 2
+	}
+	var hs []HarnessSpec
+	pkgSet := map[string]bool{}
+	for _, h := range spec.Harnesses {
+		if hasTier(h, tier) {
+			hs = append(hs, h)
+			pkgSet[h.Pkg] = true
+		}
+	}
+	var patterns []string
+	for p := range pkgSet {
+		patterns = append(patterns, repoMod+"/"+p)
+	}
+	sort.Strings(patterns)
+	eng, err := Load(ov, patterns, "verif")
+	if err != nil {
+		fmt.Println("BROKEN: load:", err)
+		return 2
+	}
+	eng.thorough = tier == "thorough"
+	if w, err := strconv.Atoi(os.Getenv("GOSYM_WORKERS")); err == nil && w > 0 {
+		eng.workers = w
+	}
+	if len(spec.HostTables) > 0 {
+		if err := eng.buildHostTables(spec.HostTables, files, tier); err != nil {
+			fmt.Println("BROKEN: host tables:", err)
+			return 2
+		}
+	}
+
+	replayRoot := filepath.Join(verifDir(), "replays", prop)
+	os.RemoveAll(replayRoot)
+	os.MkdirAll(replayRoot, 0o755)
+
+	var results []*HarnessResult
+	type pending struct {
+		path string
+		rf   *replayFile
+		h    HarnessSpec
+	}
+	perPkg := map[string][]pending{}
+	var broken []string
+	for _, h := range hs {
+		sp := eng.pkgs[repoMod+"/"+h.Pkg]
+		if sp == nil || sp.Func(h.Func) == nil {
+			broken = append(broken, "harness not found: "+h.Pkg+"."+h.Func)
+			continue
+		}
+		eng.maxPaths = 200000
+		if h.MaxPaths > 0 {
+			eng.maxPaths = h.MaxPaths
+		}
+		eng.loopBound = 128
+		if h.Loop > 0 {
+			eng.loopBound = h.Loop
+		}
+		r := eng.Explore(sp.Func(h.Func), seed)
+		results = append(results, r)
+		fmt.Printf("  %s: paths=%d %v asserts=%d discharged=%d queries=%d solver=%dms wall=%.1fs failures=%d\n",
+			h.Func, r.Paths, r.PathStatus, r.Asserts, r.Discharged, r.Queries, r.SolverMs, r.WallS, len(r.Failures))
+		for _, inc := range r.Inconclusive {
+			broken = append(broken, h.Func+": "+inc)
+		}
+		for _, c := range h.Covers {
+			if r.Covers[c] == 0 {
+				broken = append(broken, h.Func+": vacuous: cover mark '"+c+"' unreachable")
+			}
+		}
+		if r.PathStatus["done"] == 0 && len(r.Failures) == 0 {
+			broken = append(broken, h.Func+": vacuous: no path reaches the end of the harness")
+		}
+		// choose replay candidates: up to 2 per (assert id, findings) class, and the witnesses
+		classCount := map[string]int{}
+		n := 0
+		for _, f := range r.Failures {
+			key := f.AssertID + "|" + strings.Join(f.Findings, ",")
+			if classCount[key] >= 2 {
+				continue
+			}
+			classCount[key]++
+			n++
+			rf := &replayFile{Harness: r.Harness, AssertID: f.AssertID, Kind: f.Kind, Inputs: f.Inputs, Observes: f.Observes, Findings: f.Findings, Detail: f.Detail, Property: prop, Pkg: h.Pkg}
+			path := filepath.Join(replayRoot, h.Pkg, fmt.Sprintf("%s-cex%d.json", h.Func, n))
+			writeJSON(path, rf)
+			perPkg[h.Pkg] = append(perPkg[h.Pkg], pending{path, rf, h})
+		}
+		for i, w := range r.Witnesses {
+			rf := &replayFile{Harness: r.Harness, Kind: "witness", Inputs: w.Inputs, Observes: w.Observes, Property: prop, Pkg: h.Pkg}
+			path := filepath.Join(replayRoot, h.Pkg, fmt.Sprintf("%s-wit%d.json", h.Func, i+1))
+			writeJSON(path, rf)
+			perPkg[h.Pkg] = append(perPkg[h.Pkg], pending{path, rf, h})
+		}
+	}
+
+	// native replay
+	known := loadKnownFindings()
+	ovJSON, _ := writeOverlayJSON(files)
+	validated := 0
+	violations := 0
+	var violationLines, knownLines, mismatch []string
+	knownSeen := map[string]bool{}
+	type classRes struct{ reproduced, tried int; path string; f *replayFile }
+	classes := map[string]*classRes{}
+	var pkgs []string
+	for p := range perPkg {
+		pkgs = append(pkgs, p)
+	}
+	sort.Strings(pkgs)
+	for _, pk := range pkgs {
+		dir := filepath.Join(replayRoot, pk)
+		nat, out, err := runNative(pk, dir, ovJSON, tier)
+		if err != nil {
+			broken = append(broken, "native replay of "+pk+": "+err.Error()+"\n"+tail(out, 40))
+			continue
+		}
+		for _, pd := range perPkg[pk] {
+			nr := nat[pd.path]
+			if nr == nil {
+				mismatch = append(mismatch, pd.path+": replay did not run")
+				continue
+			}
+			if pd.rf.Kind == "witness" {
+				ok := nr.diverged == "" && nr.panicked == "" && len(nr.failed) == 0
+				for k, v := range pd.rf.Observes {
+					if strings.HasPrefix(v, "?") {
+						continue
+					}
+					if nr.observes[k] != v {
+						ok = false
+						mismatch = append(mismatch, fmt.Sprintf("%s: observe %s engine=%s native=%s", pd.path, k, v, nr.observes[k]))
+					}
+				}
+				if ok {
+					validated++
+				} else if nr.diverged != "" || nr.panicked != "" || len(nr.failed) > 0 {
+					mismatch = append(mismatch, fmt.Sprintf("%s: witness diverged=%q panicked=%q failed=%v", pd.path, nr.diverged, nr.panicked, nr.failed))
+				}
+				continue
+			}
+			key := pd.h.Func + "|" + pd.rf.AssertID + "|" + strings.Join(pd.rf.Findings, ",")
+			cr := classes[key]
+			if cr == nil {
+				cr = &classRes{f: pd.rf, path: pd.path}
+				classes[key] = cr
+			}
+			cr.tried++
+			repro := false
+			if pd.rf.Kind == "panic" {
+				repro = nr.panicked != ""
+			} else {
+				for _, id := range nr.failed {
+					if id == pd.rf.AssertID {
+						repro = true
+					}
+				}
+			}
+			if repro {
+				if cr.reproduced == 0 {
+					cr.path = pd.path
+					cr.f = pd.rf
+				}
+				cr.reproduced++
+				validated++
+			}
+		}
+	}
+	var keys []string
+	for k := range classes {
+		keys = append(keys, k)
+	}
+	sort.Strings(keys)
+	for _, k := range keys {
+		cr := classes[k]
+		if cr.reproduced == 0 {
+			mismatch = append(mismatch, fmt.Sprintf("%s: counterexample for %s did not reproduce natively", cr.path, cr.f.AssertID))
+			continue
+		}
+		// classify against known findings
+		isKnown := false
+		if len(cr.f.Findings) > 0 {
+			isKnown = true
+			for _, fid := range cr.f.Findings {
+				found := false
+				for _, kf := range known {
+					if kf.kind == "finding" && kf.prop == prop && kf.id == fid && (len(kf.asserts) == 0 || kf.asserts[cr.f.AssertID]) {
+						found = true
+						if !knownSeen[fid] {
+							knownSeen[fid] = true
+							knownLines = append(knownLines, fmt.Sprintf("KNOWN-FINDING: property=%s %s", prop, strings.TrimSpace(strings.TrimPrefix(kf.text, "finding:"))))
+						}
+					}
+				}
+				if !found {
+					isKnown = false
+				}
+			}
+		}
+		if !isKnown {
+			violations++
+			violationLines = append(violationLines, fmt.Sprintf("VIOLATION property=%s replay=%s", prop, cr.path))
+			fmt.Printf("  violated: %s in %s (%s)\n", cr.f.AssertID, cr.f.Harness, cr.f.Detail)
+		}
+	}
+
+	ev := buildEvidence(prop, tier, seed, spec, hs, results, validated, violations, time.Since(t0).Seconds(), eng, cf)
+	evPath := filepath.Join(verifDir(), "evidence", prop+".json")
+	if len(broken) > 0 || len(mismatch) > 0 {
+		ev["coverage"].(map[string]interface{})["inconclusive"] = append(append([]string{}, broken...), mismatch...)
+	}
+	writeJSON(evPath, ev)
+
+	for _, l := range knownLines {
+		fmt.Println(l)
+	}
+	for _, l := range violationLines {
+		fmt.Println(l)
+	}
+	if len(mismatch) > 0 {
+		for _, m := range mismatch {
+			fmt.Println("ENGINE-MISMATCH:", m)
+		}
+	}
+	if len(broken) > 0 {
+		for _, b := range broken {
+			fmt.Println("INCONCLUSIVE:", b)
+		}
+	}
+	fmt.Printf("%s %s: harnesses=%d paths=%d violations=%d known=%d validated=%d wall=%.1fs\n", prop, tier, len(results), totalPaths(results), violations, len(knownLines), validated, time.Since(t0).Seconds())
+	if violations > 0 {
+		return 1
+	}
+	if len(mismatch) > 0 || len(broken) > 0 {
+		return 2
+	}
+	return 0
+}
+
+func tail(s string, n int) string {
+	ls := strings.Split(s, "\n")
+	if len(ls) > n {
+		ls = ls[len(ls)-n:]
+	}
+	return strings.Join(ls, "\n")
+}
+
+func totalPaths(rs []*HarnessResult) int {
+	n := 0
+	for _, r := range rs {
+		n += r.Paths
+	}
+	return n
+}
+
+func buildEvidence(prop, tier string, seed int64, spec PropertySpec, hs []HarnessSpec, results []*HarnessResult, validated, violations int, wall float64, eng *Engine, cf *ChecksFile) map[string]interface{} {
+	paths, steps, queries, asserts, discharged := 0, 0, 0, 0, 0
+	var solverMs int64
+	funcs := map[string]int{}
+	var samples []interface{}
+	var perH []interface{}
+	for i, r := range results {
+		paths += r.Paths
+		steps += r.Steps
+		queries += r.Queries
+		asserts += r.Asserts
+		discharged += r.Discharged
+		solverMs += r.SolverMs
+		for f, n := range r.Funcs {
+			funcs[f] += n
+		}
+		h := hs[i]
+		perH = append(perH, map[string]interface{}{
+			"harness": r.Harness, "lemma": h.Lemma, "bounds": h.Bounds, "paths": r.Paths, "path_status": r.PathStatus,
+			"assertions_checked": r.Asserts, "assertions_discharged": r.Discharged, "solver_queries": r.Queries,
+			"solver_ms": r.SolverMs, "ssa_instructions": r.Steps, "cover_marks": r.Covers, "max_decisions_on_a_path": r.MaxDepth,
+			"violated_assert_ids": r.AssertIDs, "wall_s": r.WallS,
+		})
+		for j, w := range r.Witnesses {
+			if j >= 1 {
+				break
+			}
+			samples = append(samples, map[string]interface{}{"kind": "reachability witness replayed natively", "harness": r.Harness, "inputs": w.Inputs, "observes": w.Observes})
+		}
+		for j, f := range r.Failures {
+			if j >= 1 {
+				break
+			}
+			samples = append(samples, map[string]interface{}{"kind": "counterexample", "harness": r.Harness, "assert": f.AssertID, "inputs": f.Inputs, "findings": f.Findings})
+		}
+	}
+	var fnames []string
+	for f := range funcs {
+		if strings.Contains(f, repoMod) && !strings.Contains(f, "zzverif") && !strings.Contains(f, "VerifH_") {
+			fnames = append(fnames, f)
+		}
+	}
+	sort.Strings(fnames)
+	if len(samples) == 0 {
+		samples = append(samples, "no completed path")
+	}
+	var rws []string
+	for _, rw := range cf.Rewrites {
+		s := rw.File
+		if len(rw.HookFuncs) > 0 {
+			s += " hooks=" + strings.Join(rw.HookFuncs, ",")
+		}
+		if rw.RedirectTime {
+			s += " time.Now/Since/Until->harness clock"
+		}
+		rws = append(rws, s)
+	}
+	cov := map[string]interface{}{
+		"states":                        paths,
+		"transitions":                   steps,
+		"traces_validated_against_impl": validated,
+		"samples":                       samples,
+		"obligations":                   asserts,
+		"discharged":                    discharged,
+		"solver_queries":                queries,
+		"solver_ms":                     solverMs,
+		"solver":                        solverBin(),
+		"functions_encoded":             fnames,
+		"functions_encoded_count":       len(fnames),
+		"harnesses":                     perH,
+		"outside_the_claim":             spec.Outside,
+		"overlay_rewrites":              rws,
+		"package_load_s":                eng.loadSecs,
+		"explanation":                   "bounded symbolic execution of the real Go code (go/ssa -> SMT-LIB, z3): states = feasible paths explored to their end, transitions = SSA instructions executed, obligations = assertion instances checked (incl. implicit panic checks), discharged = those the solver refuted (unsat)",
+	}
+	return map[string]interface{}{
+		"property_id": prop,
+		"tier":        tier,
+		"seed":        seed,
+		"level":       "model_checking",
+		"coverage":    cov,
+		"assumptions": spec.Assumptions,
+		"wall_s":      wall,
+		"violations":  violations,
+	}
+}
+
+func cmdReplay(args []string) int {
+	if len(args) < 1 {
+		usage()
+	}
+	defer cleanupWork()
+	b, err := os.ReadFile(args[0])
+	if err != nil {
+		fmt.Println("cannot read", args[0], err)
+		return 2
+	}
+	rf := &replayFile{}
+	if err := json.Unmarshal(b, rf); err != nil {
+		fmt.Println("bad replay file:", err)
+		return 2
+	}
+	_, files, err := prepareOverlay()
+	if err != nil {
+		fmt.Println("overlay:", err)
+		return 2
+	}
+	ovJSON, _ := writeOverlayJSON(files)
+	dir := filepath.Join(ensureWorkDir(), "replay")
+	os.MkdirAll(dir, 0o755)
+	dst := filepath.Join(dir, filepath.Base(args[0]))
+	os.WriteFile(dst, b, 0o644)
+	nat, out, err := runNative(rf.Pkg, dir, ovJSON, os.Getenv("VERIF_TIER"))
+	if err != nil {
+		fmt.Println(out)
+		return 2
+	}
+	nr := nat[dst]
+	if nr == nil {
+		fmt.Println(out)
+		fmt.Println("replay did not run")
+		return 2
+	}
+	fmt.Printf("harness=%s assert=%s native: failed=%v panicked=%q diverged=%q observes=%v\n", rf.Harness, rf.AssertID, nr.failed, nr.panicked, nr.diverged, nr.observes)
+	if len(nr.failed) > 0 || nr.panicked != "" {
+		fmt.Printf("VIOLATION property=%s replay=%s\n", rf.Property, args[0])
+		return 1
+	}
+	return 0
+}
+
+func (e *Engine) buildHostTables(names []string, files map[string]string, tier string) error {
+	return fmt.Errorf("host tables not implemented")
+}
